@@ -46,7 +46,7 @@ InScenario(i, k) == i + k - 1 <= Len(Trace) /\ \A j \in i..(i + k - 1) : Trace[j
 CInit ==
   /\ l \in Starts /\ st0 = l
   /\ sid = Trace[l].id
-  /\ now = 0 /\ parent = "live" /\ term = FALSE /\ conn = 1 /\ egc = FALSE /\ egerr = NONE
+  /\ now = 0 /\ parent = "live" /\ term = FALSE /\ conn = 1 /\ wcl = FALSE /\ egc = FALSE /\ egerr = NONE
   /\ main = "init" /\ ret = NONE
   /\ sch = [pc |-> "off", ctxc |-> FALSE, last |-> 0, err |-> NONE]
   /\ stopped = FALSE /\ tasks = {} /\ nextId = 1 /\ wk = <<>>
@@ -93,38 +93,42 @@ MsgOf(e) == IF e.kind \in {"rs", "ra", "ns", "na"} /\ e.hl # 255 THEN [kind |-> 
 C_Arrive == /\ More /\ Ev.ev = "arrive" /\ Ev.t = now /\ main = "egwait"
             /\ inbox' = Append(inbox, MsgOf(Ev)) /\ l' = l + 1
             /\ UNCHANGED <<now, parent, term, conn, egc, egerr, main, ret, sch, stopped, tasks, nextId, wk, mc, ls, lsown, intr,
-                           dl, lw, linkEv, ipc, fwd, held, rq, nIn, nFlip, nHold, nQuery, sid, st0>>
+                           dl, lw, linkEv, wcl, ipc, fwd, held, rq, nIn, nFlip, nHold, nQuery, sid, st0>>
 C_Cancel == /\ More /\ Ev.ev = "cancel" /\ Ev.t = now /\ Quiescent /\ parent = "live"
             /\ parent' = "canceled" /\ term' = Ev.term /\ rq' = OnCancel(rq, Ev) /\ l' = l + 1
-            /\ UNCHANGED <<now, conn, egc, egerr, main, ret, sch, stopped, tasks, nextId, wk, mc, ls, lsown, intr, dl, lw, linkEv,
+            /\ UNCHANGED <<now, conn, egc, egerr, main, ret, sch, stopped, tasks, nextId, wk, mc, ls, lsown, intr, dl, lw, linkEv, wcl,
                            ipc, inbox, fwd, held, nIn, nFlip, nHold, nQuery, sid, st0>>
 C_Link == /\ More /\ Ev.ev = "link" /\ Ev.t = now /\ Quiescent
           /\ linkEv' = TRUE /\ rq' = OnLink(rq, Ev) /\ l' = l + 1
           /\ UNCHANGED <<now, parent, term, conn, egc, egerr, main, ret, sch, stopped, tasks, nextId, wk, mc, ls, lsown, intr, dl, lw,
-                         ipc, inbox, fwd, held, nIn, nFlip, nHold, nQuery, sid, st0>>
+                         wcl, ipc, inbox, fwd, held, nIn, nFlip, nHold, nQuery, sid, st0>>
+C_WClose == /\ More /\ Ev.ev = "wclose" /\ Ev.t = now /\ Quiescent
+            /\ wcl' = TRUE /\ l' = l + 1
+            /\ UNCHANGED <<now, parent, term, conn, egc, egerr, main, ret, sch, stopped, tasks, nextId, wk, mc, ls, lsown, intr, dl, lw,
+                           linkEv, ipc, inbox, fwd, held, rq, nIn, nFlip, nHold, nQuery, sid, st0>>
 C_Flip == /\ More /\ Ev.ev = "flip" /\ Ev.t = now
           /\ fwd' = Ev.val /\ l' = l + 1
           /\ UNCHANGED <<now, parent, term, conn, egc, egerr, main, ret, sch, stopped, tasks, nextId, wk, mc, ls, lsown, intr, dl, lw,
-                         linkEv, ipc, inbox, held, rq, nIn, nFlip, nHold, nQuery, sid, st0>>
+                         linkEv, wcl, ipc, inbox, held, rq, nIn, nFlip, nHold, nQuery, sid, st0>>
 C_Hold == /\ More /\ Ev.ev = "hold" /\ Ev.t = now
           /\ held' = held \cup {Ev.dst} /\ rq' = OnHold(rq, Ev) /\ l' = l + 1
           /\ UNCHANGED <<now, parent, term, conn, egc, egerr, main, ret, sch, stopped, tasks, nextId, wk, mc, ls, lsown, intr, dl, lw,
-                         linkEv, ipc, inbox, fwd, nIn, nFlip, nHold, nQuery, sid, st0>>
+                         linkEv, wcl, ipc, inbox, fwd, nIn, nFlip, nHold, nQuery, sid, st0>>
 C_Release == /\ More /\ Ev.ev = "release" /\ Ev.t = now
              /\ held' = held \ {Ev.dst} /\ rq' = OnRelease(rq, Ev) /\ l' = l + 1
              /\ UNCHANGED <<now, parent, term, conn, egc, egerr, main, ret, sch, stopped, tasks, nextId, wk, mc, ls, lsown, intr, dl,
-                            lw, linkEv, ipc, inbox, fwd, nIn, nFlip, nHold, nQuery, sid, st0>>
+                            lw, linkEv, wcl, ipc, inbox, fwd, nIn, nFlip, nHold, nQuery, sid, st0>>
 \* a scrape or API request made by the driver at a quiescent point: qcall, fwd, result
 C_Query == /\ More /\ Ev.ev = "qcall" /\ Ev.t = now /\ Quiescent /\ InScenario(l, 3)
            /\ Trace[l+1].ev = "fwd" /\ Trace[l+1].val = fwd /\ Trace[l+2].ev \in {"scrape", "api"}
            /\ rq' = ApplyN(rq, l, 3) /\ l' = l + 3
            /\ UNCHANGED <<now, parent, term, conn, egc, egerr, main, ret, sch, stopped, tasks, nextId, wk, mc, ls, lsown, intr, dl, lw,
-                          linkEv, ipc, inbox, fwd, held, nIn, nFlip, nHold, nQuery, sid, st0>>
+                          linkEv, wcl, ipc, inbox, fwd, held, nIn, nFlip, nHold, nQuery, sid, st0>>
 \* quiescence observed / time about to pass: only when the model is quiescent too
 C_Obs == /\ More /\ Ev.ev \in {"quiet", "advance"} /\ Ev.t = now /\ Quiescent
          /\ rq' = (IF Ev.ev = "quiet" THEN OnQuiet(rq, Ev) ELSE OnAdvance(rq, Ev)) /\ l' = l + 1
          /\ UNCHANGED <<now, parent, term, conn, egc, egerr, main, ret, sch, stopped, tasks, nextId, wk, mc, ls, lsown, intr, dl, lw,
-                        linkEv, ipc, inbox, fwd, held, nIn, nFlip, nHold, nQuery, sid, st0>>
+                        linkEv, wcl, ipc, inbox, fwd, held, nIn, nFlip, nHold, nQuery, sid, st0>>
 
 TimerDeadlines == {tk.at : tk \in tasks} \cup (IF mc.pc = "wait" THEN {mc.timer} ELSE {}) \cup (IF ls.pc = "backoff" THEN {ls.timer} ELSE {})
 Future(S) == {x \in S : x > now}
@@ -135,20 +139,20 @@ C_Time == /\ More /\ Quiescent
              /\ cand # {} /\ Ev.t > now
              /\ now' = MinOf(cand)
           /\ UNCHANGED <<parent, term, conn, egc, egerr, main, ret, sch, stopped, tasks, nextId, wk, mc, ls, lsown, intr, dl, lw,
-                         linkEv, ipc, inbox, fwd, held, rq, nIn, nFlip, nHold, nQuery, l, sid, st0>>
+                         linkEv, wcl, ipc, inbox, fwd, held, rq, nIn, nFlip, nHold, nQuery, l, sid, st0>>
 
 \* after Run has returned only the driver's own events remain (anything the code did would be a monitor violation)
-C_After == /\ More /\ main = "ret" /\ Ev.ev \in {"arrive", "quiet", "advance", "flip", "cancel", "link", "hold", "release", "qcall", "scrape", "api"}
+C_After == /\ More /\ main = "ret" /\ Ev.ev \in {"arrive", "quiet", "advance", "flip", "cancel", "link", "wclose", "hold", "release", "qcall", "scrape", "api"}
            /\ l' = l + 1
            /\ now' = (IF Ev.t > now THEN Ev.t ELSE now)
            /\ UNCHANGED <<parent, term, conn, egc, egerr, main, ret, sch, stopped, tasks, nextId, wk, mc, ls, lsown, intr, dl, lw,
-                          linkEv, ipc, inbox, fwd, held, rq, nIn, nFlip, nHold, nQuery, sid, st0>>
+                          linkEv, wcl, ipc, inbox, fwd, held, rq, nIn, nFlip, nHold, nQuery, sid, st0>>
 C_AfterFwd == /\ More /\ main = "ret" /\ Ev.ev = "fwd" /\ l > st0 + 1 /\ Trace[l-1].ev = "qcall"
               /\ l' = l + 1
               /\ UNCHANGED <<now, parent, term, conn, egc, egerr, main, ret, sch, stopped, tasks, nextId, wk, mc, ls, lsown, intr, dl, lw,
-                             linkEv, ipc, inbox, fwd, held, rq, nIn, nFlip, nHold, nQuery, sid, st0>>
+                             linkEv, wcl, ipc, inbox, fwd, held, rq, nIn, nFlip, nHold, nQuery, sid, st0>>
 
-CNext == C_After \/ C_AfterFwd \/ C_Begin \/ C_Internal \/ C_Arrive \/ C_Cancel \/ C_Link \/ C_Flip \/ C_Hold \/ C_Release \/ C_Query \/ C_Obs \/ C_Time
+CNext == C_After \/ C_AfterFwd \/ C_Begin \/ C_Internal \/ C_Arrive \/ C_Cancel \/ C_Link \/ C_WClose \/ C_Flip \/ C_Hold \/ C_Release \/ C_Query \/ C_Obs \/ C_Time
 CSpec == CInit /\ [][CNext]_cvars
 
 \* the scenario's events have all been consumed
